@@ -297,7 +297,7 @@ func (w *vf09World) final() string {
 	}
 	// the lock must be free once every caller has returned: the next call would block forever otherwise (and the
 	// sequential drain below would never return)
-	if alloc.mutex != (ksync.Spinlock{}) {
+	if probe := alloc.mutex; !probe.TryToAcquire() { // judged by behaviour (a try-acquire on a copy), not by the lock word
 		return "the allocator lock is left held after all callers returned: the next call blocks forever"
 	}
 	// a final sequential drain recovers exactly the un-held frames
@@ -321,7 +321,7 @@ func (w *vf09World) final() string {
 	if w.cfg.PreHeld > 0 && !w.sharedFreed() && got[w.shared] {
 		return fmt.Sprintf("drain returned frame %d which is still held", w.shared)
 	}
-	if alloc.mutex != (ksync.Spinlock{}) {
+	if probe := alloc.mutex; !probe.TryToAcquire() {
 		return "the allocator lock is left held"
 	}
 	return ""
